@@ -218,6 +218,12 @@ def gen_rules_file(r, txn, n=None, force_ties=False, dup_names=False, let_twins=
                                              'a#b', 'Tax 2024/25', 'Größe'])
             if 'subcategory' in rule and r.random() < 0.4:
                 rule['subcategory'] = r.choice(['Store #12', 'Sub: one', 'p/q', '# not a comment?'.replace('# ', 'No. #'), 'x  y', 'ÄÖ'])
+            if r.random() < 0.5:
+                # a tag is free text up to the next top-level comma; an {expression} tag is an expression: '#', ';', '//' are ordinary characters in both
+                extra = r.sample(['#travel', 'trip #2', 'a # b', '{extract(description, "STORE #(\\\\d+)")}', '{extract(description, "(\\\\w+) #\\\\d+")}',
+                                  '{"no. #" + source}', 'x;y', '// z', '{extract(description, "# ?(\\\\d+)")}', 'late # fee'], r.choice([1, 2]))
+                pos = r.randint(0, len(rule.get('tags', [])))
+                rule['tags'] = rule.get('tags', [])[:pos] + extra + rule.get('tags', [])[pos:]
             if r.random() < 0.3:
                 rule['merchant'] = r.choice(['Safeway #1234', 'Safeway #99', "Joe's #2", 'A & B', 'Shop: Main St', 'M (East)', 'X #A1 # B2'])
     if long_patterns and rules:
@@ -263,11 +269,19 @@ def gen_csv_rules(r, txn, n=None, expression_like=True):
     n = n if n is not None else r.choice([1, 2, 3, 4, 6])
     words = txn['description'].upper().split()
     rows = []
+    # a file whose patterns carry their own group structure (numbered groups, back-references, conditionals, named groups, scoped
+    # flags): each row is a regular expression ON ITS OWN - its groups are numbered within the row, whatever the other rows contain
+    grouped = r.random() < 0.3
     for i in range(n):
         hit = r.random() < 0.6
         tok = r.choice(words) if hit else r.choice(MERCHANT_TOKENS)
         k = r.random()
-        if k < 0.45:
+        if grouped and tok.isalnum() and r.random() < 0.8:
+            other = r.choice(MERCHANT_TOKENS)
+            pat = r.choice([f'({tok}|{other})', f'^(?=.*({tok})).*\\1', f'(?:({tok})|ZZZ9)(?(1)|QQQ9)', f'(?P<m>{tok})',
+                            f'^(?=.*(?P<w>{tok})).*(?P=w)', f'(?i:{tok.lower()})', f'({tok[0]}){tok[1:]}', f'({other})?{tok}(?(1)ZZZ9|)',
+                            f'(({tok}))\\2?'])
+        elif k < 0.45:
             pat = tok
         elif k < 0.6:
             pat = f'{tok}\\s*\\S*'
@@ -306,6 +320,30 @@ def gen_csv_rules(r, txn, n=None, expression_like=True):
         if rows and r.random() < 0.12:
             cell = r.choice(rows)[0]           # merged / appended files repeat a Pattern cell; the EARLIER row still decides
         rows.append((cell, f'M{i} {tok.title()}', '' if tag_only else cat[0], '' if tag_only else cat[1], tags))
+    return rows
+
+
+def gen_csv_rules_grouped(r, txn):
+    """A legacy file in which FEW rows match and every row has its own group structure: the rows that do not match carry
+    capturing / named groups too.  Whatever a loader does with the list as a whole (joins, renumbers, compiles once), each
+    row must keep meaning what it means alone: the first matching row with a category decides."""
+    words = [w for w in txn['description'].upper().split() if w.isalnum()] or ['UBER']
+    absent = [t for t in MERCHANT_TOKENS if t not in txn['description'].upper()] or ['ZZZQ']
+    n = r.choice([2, 3, 4, 6])
+    k_hit = r.sample(range(n), r.choice([1, 1, 2]) if n > 1 else 1)
+    rows = []
+    for i in range(n):
+        if i in k_hit:
+            tok = r.choice(words)
+            pat = r.choice([f'^(?=.*({tok})).*\\1', f'(?:({tok})|ZZZ9)(?(1)|QQQ9)', f'^(?=.*(?P<w{i}>{tok})).*(?P=w{i})',
+                            f'(({tok}))\\2', f'({tok[0]}){tok[1:]}(?=.*\\1)?', f'(ZZZ9)?{tok}(?(1)QQQ9|)', f'(?P<m>{tok})', tok])
+        else:
+            tok = r.choice(absent)
+            pat = r.choice([f'({tok}|{r.choice(absent)})', f'({tok})\\s*(\\d+)', f'(?P<m>{tok})', f'(?P<a{i}>{tok})x?', f'{tok}', f'(({tok}))',
+                            f'({tok})(?(1)x|y)'])
+        tag_only = r.random() < 0.2
+        cat = r.choice(CATS)
+        rows.append((pat, f'G{i} {tok.title()}', '' if tag_only else cat[0], '' if tag_only else cat[1], 'grp' if tag_only else ''))
     return rows
 
 
